@@ -335,12 +335,57 @@ def ba_random_script(cap, rng, nops):
     return "\n".join(lines) + "\n"
 
 
+AR_DO = "Do(o) == Enabled(a, o) /\\ a' = Apply(a, o) /\\ lastop' = o /\\ before' = a"
+AR_VALS = [0, 1]
+
+
+def ar_ops(cap):
+    return [{"op": "sset", "i": i, "v": v} for i in range(cap) for v in AR_VALS] + [{"op": "sfill", "i": 0, "v": v} for v in AR_VALS] + \
+           [{"op": o, "i": 0, "v": 0} for o in ("sclear", "dclear", "bclear", "dappend")] + \
+           [{"op": o, "i": 0, "v": v} for o in ("demplace", "dpush", "bemplace") for v in AR_VALS]
+
+
+def ar_line(o):
+    if o["op"] == "sset":
+        return "ar sset %d %d" % (o["i"], o["v"])
+    if o["op"] in ("sfill", "demplace", "dpush", "bemplace"):
+        return "ar %s %d" % (o["op"], o["v"])
+    return "ar " + o["op"]
+
+
+def ar_tour_script(cap):
+    """every transition of the Arrays model at this capacity (fixed array, growable array, second growable array, append)"""
+    ops = ar_ops(cap)
+    init, edges, nstates = state_graph("Arrays", ops, AR_DO, ["CapA = %d" % cap, "ElemVals = {0, 1}"], "ar%d" % cap)
+    tours, left = edge_tours(init, edges)
+    lines = []
+    for t in tours:
+        lines.append("ar new")
+        lines += [ar_line(ops[e[1]]) for e in t]
+    return "\n".join(lines) + "\n", {"ar_model_states": nstates, "ar_model_transitions": len(edges), "ar_uncovered": left, "ar_tours": len(tours)}
+
+
 def ar_random_script(cap, rng, nops):
     lines = ["ar new"]
     cnt = 0
+    bcnt = 0
     for _ in range(nops):
         c = rng.random()
-        if c < 0.45:
+        if c < 0.12 and bcnt < cap:
+            lines.append("ar bemplace %d" % rng.randrange(1000))
+            bcnt += 1
+        elif c < 0.14:
+            lines.append("ar bclear")
+            bcnt = 0
+        elif c < 0.22:
+            if cnt + bcnt <= cap:
+                lines.append("ar dappend")
+                cnt += bcnt
+        elif c < 0.30:
+            if cnt < cap:
+                lines.append("ar %s %d" % (rng.choice(["dpush", "dpushm"]), rng.randrange(1000)))
+                cnt += 1
+        elif c < 0.45:
             lines.append("ar sset %d %d" % (rng.randrange(cap), rng.randrange(1000)))
         elif c < 0.55:
             lines.append("ar sfill %d" % rng.randrange(1000))
@@ -472,7 +517,8 @@ def _run(kind, tier, seed, caps, script_fn, mc_cfgs, mc_module):
     out["coverage"] = {"states": states, "transitions": trans,
                        "traces_validated_against_impl": sum(1 for c in per_cap if c["accepted"]),
                        "samples": [{"component_runs": per_cap[:4]}],
-                       "component_model_checking": mcs, "component_runs": per_cap, "component_wall_s": round(time.time() - t0, 1)}
+                       "component_model_checking": mcs, "component_runs": per_cap,
+                       "implementation_executions": len(per_cap), "implementation_events": sum(c.get("events", 0) for c in per_cap), "component_wall_s": round(time.time() - t0, 1)}
     return out
 
 
@@ -519,9 +565,13 @@ def extra_c20(tier, seed):
         text = ""
         if cap <= (8 if q else 9):
             text, info = ba_tour_script(cap)
+        if cap in (2, 3) and (cap == 2 or not q):
+            t2, i2 = ar_tour_script(cap)
+            text += t2
+            info.update(i2)
         text += ba_random_script(cap, rng, 200 if q else 3000) + ar_random_script(cap, rng, 150 if q else 2000)
         return text, info
-    caps = [1, 7, 8, 9, 12, 17] if q else [1, 2, 7, 8, 9, 12, 16, 17, 33, 64, 255]
+    caps = [1, 2, 7, 8, 9, 12, 17] if q else [1, 2, 3, 7, 8, 9, 12, 16, 17, 33, 64, 255]
     return _run("bits", tier, seed, caps, script, ["BA_cap1", "BA_cap7", "BA_cap8", "BA_cap9", "AR_cap3"] + ([] if q else ["BA_cap12"]), None)
 
 
